@@ -661,6 +661,12 @@ func (x *Unit) spCall(st *State, e *ast.CallExpr, c *specCtx) Val {
 			}
 		}
 		return Val{Eq(x.uf("pooltype", SInt, pv.T), IntLit(int64(x.u.TypeID(t)))), boolT}
+	case "dyntype":
+		// dyntype(v): the dynamic type of interface value v (as an opaque number)
+		return Val{IfaceTyp(arg(0).T), intT}
+	case "elemtype":
+		// elemtype(c): the dynamic type of the elements of container c (sync.Pool, sync.Map), see pooltype
+		return Val{x.uf("pooltype", SInt, arg(0).T), intT}
 	case "once":
 		lv := x.specLV(st, e.Args[0], c)
 		if lv == nil {
